@@ -29,11 +29,13 @@ pub mod c18_world;
 pub mod c19;
 pub mod c19_fn;
 pub mod c19_seq;
+pub mod c19_badge;
 pub mod c20_world;
 pub mod c20;
 pub mod c12;
 pub mod c12_fn;
 pub mod c13;
+pub mod c13_live;
 pub mod c09;
 pub mod c10;
 pub mod c11;
